@@ -272,6 +272,27 @@ def r_clipsym(idx, rep, modules, rule="R-CLIPSYM", floor=4):
                               "`%s`: %s" % (u(c)[:90], "the lower bound is not the negation of the upper bound" if not sym else
                                             "the upper bound is not half of a size parameter (0.5 * size): the shape is centred in its frame, its extent is +-size/2"),
                               "[-h, +h], h = half size")
+                    # the clipped coordinates and the bound select the SAME components: x[I] against h[I]
+                    def sel(e, depth=0):
+                        """index text of the outermost selection of an array expression (through one local definition), or None for the whole array"""
+                        if isinstance(e, ast.UnaryOp):
+                            return sel(e.operand, depth)
+                        if isinstance(e, ast.Name) and e.id in halves and depth < 2 and not (e.id in params):
+                            return sel(halves[e.id], depth + 1)
+                        if isinstance(e, ast.BinOp) and isinstance(e.op, (ast.Mult, ast.Div)):
+                            a_, b_ = sel(e.left, depth), sel(e.right, depth)
+                            return a_ if a_ is not None else b_
+                        if isinstance(e, ast.Subscript):
+                            ix = e.slice
+                            if isinstance(ix, ast.Name) and ix.id in halves and not (ix.id in params):
+                                ix = halves[ix.id]
+                            return u(ix).replace(" ", "")
+                        return None
+                    sx, sh = sel(c.args[0]), sel(hi)
+                    if sx is not None and sh is not None:
+                        rep.check(sx == sh, rule, "%s|np.clip #%d coordinates and bound select the same components" % (f.key, k), where,
+                                  "`%s` clips the components [%s] against the half sizes of the components [%s]: each coordinate is bounded by the extent of ITS OWN axis "
+                                  "(numpy broadcasting hides the mismatch)" % (u(c)[:100], sx, sh), "[%s]" % sx)
 
 
 CENTRED = ("cylinder", "capsule", "box", "rectangle")
